@@ -142,3 +142,4 @@ package measurement
 //@ func ScaledLabel arith bv nosafety floatabs=yes
 //@   callsite Scale args: $arg0 == value && $arg1 == fromUnit && $arg2 == toUnit
 //@   mustcall Scale scaled: true when true
+//@   mustcall Sprintf two_decimals: $arg0 == "%.2f" when true
